@@ -281,6 +281,25 @@ impl From<_VerificationMethod> for VerificationMethod {
       data,
       mut properties,
     } = value;
+    // With more than one flattened member serde falls through to the untagged `Custom` variant:
+    // recover the typed key material that ended up in `properties`.
+    let data = match data {
+      MethodData::Custom(custom) => {
+        if let Some(serde_json::Value::String(s)) = properties.get("publicKeyMultibase") {
+          MethodData::PublicKeyMultibase(s.clone())
+        } else if let Some(serde_json::Value::String(s)) = properties.get("publicKeyBase58") {
+          MethodData::PublicKeyBase58(s.clone())
+        } else if let Some(jwk) = properties
+          .get("publicKeyJwk")
+          .and_then(|value| serde_json::from_value::<Jwk>(value.clone()).ok())
+        {
+          MethodData::PublicKeyJwk(jwk)
+        } else {
+          MethodData::Custom(custom)
+        }
+      }
+      other => other,
+    };
     let key = match &data {
       MethodData::PublicKeyBase58(_) => "publicKeyBase58",
       MethodData::PublicKeyJwk(_) => "publicKeyJwk",
